@@ -216,20 +216,23 @@ theorem pathSetList_counterexample :
     goChanges pathSetListPre 3 (.caller (.setStep 5 0 "zz")) = true := by decide
 
 /-- `p := Path{}.GetAttr("a").GetAttr("b"); s := NewPathSet(); s.AddAllSteps(p);
-l := s.List(); q := l[0]` — `q` is the member `p[:1]`: `len 1, cap 2`, over `p`'s array -/
+l := s.List(); q := l[0]` — `q` is the member `p[:1:1]`: `len 1, cap 1`, over `p`'s array -/
 def pathSetAddAllStepsPre : List HeapOp :=
   [.caller .nilPath, .api (.pathGetAttr 0 "a"), .api (.pathGetAttr 1 "b"), .api .newPathSet,
    .api (.psAddAllSteps 3 2 [1, 2]), .api (.psList 3 [0, 1]), .caller (.elemPath 4 0)]
 
-/-- **`AddAllSteps` files every prefix `path[:i]` as a slice over the caller's array**
-(the path is retained as by `Add`, documented) — so the members of one set SHARE a
-backing array, the shorter ones with spare capacity: `append(q, step)` on the listed
-member `a` writes no cell of `a` itself, yet turns the member `a.b` into `a.zz`. -/
-theorem pathSetAddAllSteps_counterexample :
+/-- **REGRESSION (repaired by /repo 776b476): `AddAllSteps` files every prefix without spare
+capacity.**  Before the repair the prefixes were `path[:i]` — slices over the caller's array WITH
+the room of the longer ones — and `append(q, step)` on the listed member `a` wrote no cell of `a`
+itself, yet turned the member `a.b` into `a.zz` (this theorem was
+`pathSetAddAllSteps_counterexample`).  Now the listed member has `cap = len`, so the append
+allocates: it is a respectful caller step and leaves the set as it was.  (The path itself is still
+retained, as by `Add`: documented.) -/
+theorem pathSetAddAllSteps_append_safe :
     respectfulRun {} pathSetAddAllStepsPre = true ∧
-    (run {} pathSetAddAllStepsPre).gos[5]! = .slice 1 0 1 2 ∧
-    respectful (run {} pathSetAddAllStepsPre) (.caller (.appendStep 5 "zz")) = false ∧
-    goChanges pathSetAddAllStepsPre 3 (.caller (.appendStep 5 "zz")) = true := by decide
+    (run {} pathSetAddAllStepsPre).gos[5]! = .slice 1 0 1 1 ∧
+    respectful (run {} pathSetAddAllStepsPre) (.caller (.appendStep 5 "zz")) = true ∧
+    goChanges pathSetAddAllStepsPre 3 (.caller (.appendStep 5 "zz")) = false := by decide
 
 /-- Walk over `list(list(list(list("x","y"))))`, four callback invocations deep: the
 path of `[0][0][0][0]` is register 9 and has `len 4, cap 4`, sharing its array with
